@@ -30,6 +30,10 @@ structure Dump where
   pres  : String := ""              -- backlog request issued from inside the batch ("" = none)
   pbest : Nat := 0
   pbl   : List Node := []
+  cs    : Bool := false             -- the ChainService-level lookups were recorded
+  csbyh : List Nat := []            -- ChainService.GetBlockHash 0,1,2,… until it fails
+  cstip : Option Node := none       -- ChainService.BestBlock
+  csbad : Nat := 0                  -- hashes on which GetBlockHeight / GetBlockHeader disagree with the store
   storedAt : List Bool := []        -- per notification: (disconnected) the block was still in the store when the event was received
   pseen : Nat := 0                  -- notifications the sink had taken when the backlog was requested
   pre   : List (Bool × Nat × Nat) := []   -- per notification: block store tip (height, id) the slow sink saw right before taking it
@@ -71,12 +75,21 @@ def byHashOf (byh : List Nat) : List Node := (withHeights 0 byh).foldr insertByI
 def lookupsAgree (d : Dump) : Bool :=
   d.tip == some ⟨tipId d.byh, tipHeight d.byh⟩ && d.byh != [] && d.bhash == byHashOf d.byh
 
+/-- the public lookups of the ChainService agree with the store: by height, by hash, best block
+(the block at the lower of the two store tips) -/
+def csAgree (d : Dump) : Bool :=
+  !d.cs || (d.csbyh == d.byh && d.csbad == 0 &&
+    (match d.fst with
+     | some f => let h := min f (tipHeight d.byh); d.cstip == some ⟨d.byh.getD h 0, h⟩
+     | none => true))
+
 def c01 (c : Cfg) (d : Dump) : List Fail :=
   (if d.byh.head? != some 0 then [("genesis-missing", "height 0 is not the genesis header")] else []) ++
   (if !linkedFrom c.tbl 0 (d.byh.drop 1) then [("not-linked", "a stored header does not name its predecessor")] else []) ++
   (if !(d.byh.drop 1).all c.tbl.valid then [("invalid-header-stored", "a stored header fails btcd's checks on its own branch")] else []) ++
   (if !cpsHold c.cps d.byh then [("checkpoint-replaced", "the header at a checkpoint height is not the checkpoint")] else []) ++
-  (if !lookupsAgree d then [("lookups-disagree", "tip / by-height / by-hash lookups disagree")] else [])
+  (if !lookupsAgree d then [("lookups-disagree", "tip / by-height / by-hash lookups disagree")] else []) ++
+  (if lookupsAgree d && !csAgree d then [("lookups-disagree", s!"ChainService lookups disagree with the header store: GetBlockHash by height gives {d.csbyh}, the store {d.byh}; BestBlock {repr d.cstip}; {d.csbad} hashes with a different GetBlockHeight/GetBlockHeader answer")] else [])
 
 def dumpGood (c : Cfg) (d : Dump) : Bool := chainValid c d.byh && lookupsAgree d
 
